@@ -2,6 +2,7 @@
 // Every trace line is checked against an independent ISA run (spec/isa.h) of the same image and against the symbol
 // table: count, byte address, symbol (the last FUNC/PROC at or below the address), offset, mnemonic, operand nibble.
 //   usage: c15_native <seed> <n-programs>
+#include <cstdlib>
 #include <cstdio>
 #include <cstdint>
 #include <cstring>
@@ -43,10 +44,11 @@ static std::string gen(std::mt19937_64 &rng, int &nprocs) {
   return o.str();
 }
 
+static std::string hexScratch(const char *leaf) { const char *b = getenv("HEX_SCRATCH"); return std::string(b && *b ? b : "/var/tmp") + "/" + leaf; } // scratch files live under out/<ID>/scratch (wiped with it)
 int main(int argc, char **argv) {
   std::mt19937_64 rng(argc > 1 ? strtoull(argv[1], 0, 10) : 1); long n = argc > 2 ? atol(argv[2]) : 50;
   long bad = 0, lines = 0, progs = 0; std::string why, firstProg;
-  char fn[] = "/var/tmp/hexc15.XXXXXX"; int fd = mkstemp(fn); close(fd);
+  std::string fnS = hexScratch("hexc15.XXXXXX"); char *fn = &fnS[0]; int fd = mkstemp(fn); close(fd);
   for (long it = 0; it < n; it++) {
     int nprocs; std::string src = gen(rng, nprocs);
     std::vector<std::pair<std::string, unsigned>> syms;   // expected: FUNC/PROC in source order with the address of the next emitted byte
